@@ -1,6 +1,7 @@
 (* C18 -- coarse-grained stress tensor: symmetric, linear, isotropic for pure pressure.  Statements only.
    The tensor of a grid cell is reported as [[xx, xy], [xy, yy]] (symmetric by construction of the model's triple). *)
 From Coq Require Import List Reals.
+From Coq Require Import Permutation.
 From Forsys Require Import Model.Num Model.Stress Proofs.StressProofs.
 Import ListNotations.
 
@@ -31,6 +32,11 @@ Proof. exact principal_are_eigenvalues. Qed.
 Theorem C18_principal_isotropic : forall p : R, principal ROps (- p, 0, - p)%R = (- p, - p)%R.
 Proof. exact principal_isotropic. Qed.
 
+(* the tensor of a grid cell does not depend on the order in which the selected cells and interfaces are listed *)
+Theorem C18_sigma_order_independent : forall cells cells' edges edges', Permutation cells cells' -> Permutation edges edges' ->
+  sigma ROps cells edges = sigma ROps cells' edges'.
+Proof. exact sigma_order_independent. Qed.
+
 Print Assumptions C18_sigma_zero_when_empty.
 Print Assumptions C18_sigma_zero_area.
 Print Assumptions C18_sigma_linear.
@@ -39,3 +45,4 @@ Print Assumptions C18_key_injective_le_10.
 Print Assumptions C18_key_collision_refuted.
 Print Assumptions C18_principal_are_eigenvalues.
 Print Assumptions C18_principal_isotropic.
+Print Assumptions C18_sigma_order_independent.
